@@ -216,6 +216,23 @@ func genC19(cfg Config, emit Emit) error {
 			emit("cost", []string{mustJSON(treeWorld(3, d, failing))}, "tree3/"+f, true)
 		}
 	}
+	// shared proof DAGs made of wildcard grants ("full access" delegations) that succeed
+	for _, wd := range []int{2, 3, 4} {
+		for d := 1; d <= 6; d++ {
+			for vi, pat := range []string{"*", "store/*"} {
+				w := layeredWorld(wd, d, false, 1)
+				for i := range w.Tokens {
+					if i != w.Inv {
+						w.Tokens[i].Caps[0].Can = pat
+						if vi == 1 && i%2 == 0 {
+							w.Tokens[i].Caps[0].Can = "*"
+						}
+					}
+				}
+				emit("cost", []string{mustJSON(w)}, "layered-wildcard/ok", true)
+			}
+		}
+	}
 	// random DAG-ish worlds from the common generator (sessions included: attestation claims are work too)
 	n := 300
 	if cfg.Thorough() {
